@@ -266,6 +266,8 @@ def main(prop, tier, replay, njobs):
     jobs = spec["jobs"](tier, seed)
     for j in jobs:
         j.timeout = DEADLINE + 300
+        if spec.get("classes"):
+            j.env = dict(j.env, VC_CLASSES=",".join(spec["classes"]))   # the search cap counts this property's classes only
     # build (distinct binaries once)
     exes = {}
     for j in jobs:
